@@ -21,6 +21,7 @@ import GwcsModel.Drv.C16
 import GwcsModel.Drv.C09
 import GwcsModel.Drv.C11
 import GwcsModel.Drv.C10
+import GwcsModel.Drv.C20
 open Lean Gwcs
 
 def dispatch (j : Json) : Json :=
@@ -33,6 +34,7 @@ def dispatch (j : Json) : Json :=
   | some "C09" => Gwcs.Drv.C09.handle j
   | some "C11" => Gwcs.Drv.C11.handle j
   | some "C10" => Gwcs.Drv.C10.handle j
+  | some "C20" => Gwcs.Drv.C20.handle j
   | some "C02" => Gwcs.Drv.C02.handle j
   | some "C05" => Gwcs.Drv.C05.handle j
   | some "C04" => Gwcs.Drv.C04.handle j
